@@ -66,7 +66,9 @@ type Scenario struct {
 	Post   bool            `json:"post"` // a closed triangle sub-path follows the sub-path of the curve
 	// Via (degrees, circle arcs only): the path is first built as the 2:1 ellipse with that rotation of which the circle is the
 	// image under an anisotropic scaling, then mapped onto the circle by Path.Transform; the call is made on the result
-	Via int        `json:"via,omitempty"`
+	Via int `json:"via,omitempty"`
+	// Sc (Beziers): decimal exponents e of the small-scale embeddings x 10^-e listed by Curves!ScaleExps
+	Sc  []int      `json:"sc,omitempty"`
 	Tn  int        `json:"tn"`
 	Td  int        `json:"td"`
 	Emb latgeo.Emb `json:"emb"`
@@ -472,6 +474,10 @@ func mismatches(s *Scenario, v verdict, ev *Event) []core.Mismatch {
 		if w == "structure" && s.F["startend"] {
 			sig += "+start=end"
 		}
+		if w == "mono" && s.Op == "xmonotone" && s.Emb.B == 0 && s.Emb.A > 0 && s.Emb.A < 5e-4 {
+			// scale dimension (Curves!ScaleExps): a class of its own, so that the same clause at ordinary scales stays reported
+			sig += "+small-scale"
+		}
 		ms = append(ms, core.Mismatch{Signature: sig, Detail: det})
 	}
 	return ms
@@ -608,6 +614,16 @@ func (d Driver) Run(c *core.Ctx) error {
 						for _, td := range tds {
 							emit("flatten", t0n, td, tinyEmb)
 						}
+					}
+					if len(base.Sc) > 0 {
+						// scale dimension (Curves!ScaleExps): clause (T) and XMonotone under x 10^-e; the exponent by hash, so
+						// every exponent meets every curve type, feature and variant over the run
+						x := base.Sc[int(h/7)%len(base.Sc)]
+						se := latgeo.Emb{Name: fmt.Sprintf("scale1e-%d", x), A: math.Pow(10, -float64(x)), D: math.Pow(10, -float64(x))}
+						for _, td := range tds {
+							emit("flatten", t0n, td, se)
+						}
+						emit("xmonotone", 0, 1, se)
 					}
 					if base.Cv.Type == "arc" && base.Cv.Shape == "circle" && h%3 == 0 {
 						via := []int{7, 28, 29, 31}[int(h/17)%4]
